@@ -129,6 +129,9 @@ pub struct Behav {
     /// 0 no panic; 1 panic inside `run`; 2 panic in `fetch` before borrowing anything; 3 panic
     /// inside `run` with a payload that is not a string (`panic_any`)
     pub panic_mode: AtomicUsize,
+    /// 0: `panic_mode` applies to every run; k + 1: only to the run that `k` completed entries
+    /// into `run` precede (asyncd engine: the dispatch / `wait` the panic is injected into)
+    pub panic_only_run: AtomicU64,
     /// wait (bounded) inside `run` until this many systems are inside at once
     pub rendezvous: AtomicUsize,
     pub runs: AtomicU64,
@@ -148,6 +151,14 @@ pub struct Behav {
     pub multi_epoch: AtomicUsize,
     pub it_epoch: AtomicUsize,
     pub it_count: AtomicUsize,
+}
+
+impl Behav {
+    /// whether an armed panic applies to the run that `entered` entries into `run` precede
+    pub fn panic_applies(&self, entered: u64) -> bool {
+        let only = self.panic_only_run.load(SeqCst);
+        only == 0 || entered + 1 == only
+    }
 }
 
 pub struct Shared {
@@ -208,6 +219,7 @@ impl Shared {
         for b in &self.behav {
             b.hold_us.store(0, SeqCst);
             b.panic_mode.store(0, SeqCst);
+            b.panic_only_run.store(0, SeqCst);
             b.rendezvous.store(0, SeqCst);
         }
     }
@@ -318,7 +330,7 @@ impl<'a> DynamicSystemData<'a> for Data<'a> {
         a.shared.push('F', inst.clone());
         // from here on the drop of `d` logs D (or P while unwinding)
         let mut d = Data { tag: a.tag, inst, shared: a.shared.clone(), reads: vec![], writes: vec![] };
-        if a.shared.behav[a.tag].panic_mode.load(SeqCst) == 2 {
+        if a.shared.behav[a.tag].panic_mode.load(SeqCst) == 2 && a.shared.behav[a.tag].panic_applies(a.shared.behav[a.tag].runs.load(SeqCst)) {
             panic!("harness panic (fetch) {} #{}", a.tag, a.shared.round.load(SeqCst));
         }
         if a.borrow {
